@@ -112,6 +112,7 @@ def drive_random(cs, scn, rec, seed, nsteps, modes, genstep_frac=0.3, reset_frac
     counter = 0
     first_draws = {}          # record mode: first recorded draw of every episode, per environment
     fresh = {e: True for e in eids}
+    last_k = {}
     if record_draws:
         for e in eids:
             rec.reset(e, seed=seed + e)      # the Gymnasium way of seeding, once; later resets are plain
@@ -127,6 +128,9 @@ def drive_random(cs, scn, rec, seed, nsteps, modes, genstep_frac=0.3, reset_frac
             k = hi * ph + rng.randrange(ph) + 1
         else:
             k = rng.randrange(n) + 1
+        if last_k.get(e) and rng.random() < 0.12:
+            k = last_k[e]            # the very same action again
+        last_k[e] = k
         u = pyref.safe_random_draw(rng, probs)
         if rng.random() < 0.6:
             u = u * 0.3          # lean towards the lucky side so that deep states are reached
@@ -202,12 +206,14 @@ def drive_sweep(cs, scn, rec, seed, modes, max_steps=2500, after_goal=120):
         e = i + 1
         rec.create(e, scn, fo, fa, f1)
         env = rec.envs[e]
-        for episode, budget in enumerate((max_steps, max_steps // 3)):
+        for episode, budget in enumerate((max_steps, max_steps // 2)):
+            # the second episode goes through the hosts in the opposite order
+            hosts_order = list(enumerate(hosts)) if episode == 0 else list(enumerate(hosts))[::-1]
             rec.reset(e)
             held, done, used = [], False, 0
             while not done and used < budget:
                 progressed = False
-                for hi, h in enumerate(hosts):
+                for hi, h in hosts_order:
                     if done or used >= budget:
                         break
                     if not env.current_state.host_discovered(h):
@@ -294,6 +300,7 @@ def run_job(job):
         tla = render_scenario_tla(cs)
         if job.get("decoy", True) and len(cs["hosts"]) <= 20:
             corpus.run_decoys(cs)
+            corpus.run_numbers_decoy(scn)
         trace = os.path.join(wd, "trace.ndjson")
         rec = Recorder(trace, len(cs["hosts"]))
         if job.get("spec_only"):
